@@ -360,6 +360,10 @@ class FactBase:
 
     def const_value(self, path_suffix):
         hits = [c for p, c in self.consts.items() if p == path_suffix or p.endswith("::" + path_suffix)]
+        if not hits and "::" in path_suffix:
+            # the constant may have been moved into a nested / sibling module: `a::NAME` also matches `a::<mods>::NAME`
+            head, name = path_suffix.rsplit("::", 1)
+            hits = [c for p, c in self.consts.items() if p.endswith("::" + name) and ("::" + head + "::") in ("::" + p)]
         if len(hits) != 1:
             raise AnchorMissing("constant %s: %d matches" % (path_suffix, len(hits)))
         c = hits[0]
